@@ -1925,6 +1925,13 @@ func main() {
 			last == "return s.commit(rec, false)"
 	}(),
 		"`recoverTable` contains no call of `s.create()`, `newManifest` or `SetMeta`; its only commit is its last statement `return s.commit(rec, false)` (with `s.manifest == nil` that is `newManifest(rec, nv)`: the D33 repair)")
+	o.boolean("blockSeekGuardsIndex", func() bool {
+		t := funcText("leveldb/table/reader.go", "block.seek")
+		g := strings.Index(t, "if index >= b.restartsLen {")
+		r := strings.LastIndex(t, "binary.LittleEndian.Uint32(b.data[b.restartsOffset+4*index:])")
+		return g >= 0 && r > g && strings.Contains(strings.Join(strings.Fields(t[g:r]), " "), "return index, b.restartsOffset, nil")
+	}(),
+		"`block.seek` returns `(index, b.restartsOffset, nil)` when `index >= b.restartsLen` before it reads `restart[index]` (the D57 repair: an empty restart range behind the last restart point; `Model/BlockIter.seekR`)")
 	o.boolean("batchLenCheckUnsigned", func() bool {
 		t := funcText("leveldb/batch.go", "decodeBatch")
 		return strings.Count(t, "x > uint64(len(data)-o)") == 2 && !strings.Contains(t, "o+int(x) > len(data)")
